@@ -136,26 +136,38 @@ def build(tier, seed):
                   bounds='cost, salvage reals in +-10^9, life real in +-10^4: SLN * life = cost - salvage (also for negative life); #DIV/0! for life 0', show=lambda c, s, l: f'SLN({c!r}, {s!r}, {l!r})'))
 
     # ---------------- PMT / PV plumbing (library = uninterpreted)
-    def h_pmt(rate: float, nper: float, pv: float, fv: float, u: float, with_fv: bool) -> bool:
-        RES[0] = u
-        del CALLS[:]
-        r = FIN.PMT(rate, nper, pv, fv) if with_fv else FIN.PMT(rate, nper, pv)
-        if not STUB[0]:
-            return nval(r) is not None          # native replay: the real library decides the number
-        return len(CALLS) == 1 and CALLS[0] == ('pmt', rate, nper, pv, fv if with_fv else 0, 'end') and nval(r) == u
-    obs.append(Ob('c20.PMT[plumbing]', h_pmt, pre=lambda rate, nper, pv, fv, u, w: 0.001 <= rate <= 10 and 1 <= nper <= 600 and -1e6 <= pv <= 1e6 and -1e6 <= fv <= 1e6 and -1e6 <= u <= 1e6,
-                  witness=[(0.01, 10.0, 1000.0, 0.0, 5.0, False), (0.1, 5.0, 100.0, 50.0, 1.0, True)], timeout=120, cost=5, family='c20.plumbing', ctx=npf_stub, stubs=['P4 numpy_financial.pmt / pv recording stub'],
-                  bounds='PMT(rate, nper, pv[, fv]) hands (rate, nper, pv, fv or 0, payments at period end) to the annuity routine and returns its result; all arguments reals',
-                  show=lambda *a: f'PMT{a[:4]!r}'))
+    import numpy_financial as real_npf
+
+    def close(a, b):
+        return a is not None and abs(a - b) <= 1e-9 * (1 + abs(b))
+
+    def mk_pmt(with_fv):
+        def h_pmt(rate: float, nper: float, pv: float, fv: float, u: float) -> bool:
+            RES[0] = u
+            del CALLS[:]
+            r = FIN.PMT(rate, nper, pv, fv) if with_fv else FIN.PMT(rate, nper, pv)
+            if not STUB[0]:
+                # native replay: the real library, called directly with the prescribed arguments
+                return close(nval(r), float(real_npf.pmt(rate, nper, pv, fv if with_fv else 0, 'end')))
+            return len(CALLS) == 1 and CALLS[0] == ('pmt', rate, nper, pv, fv if with_fv else 0, 'end') and nval(r) == u
+        return h_pmt
+    for with_fv in (False, True):
+        obs.append(Ob(f'c20.PMT[plumbing, {"fv given" if with_fv else "fv omitted"}]', mk_pmt(with_fv),
+                      pre=lambda rate, nper, pv, fv, u, with_fv=with_fv: -0.9 < rate <= 10 and 1 <= nper <= 600 and -1e6 <= pv <= 1e6 and -1e6 <= fv <= 1e6 and -1e6 <= u <= 1e6 and (fv != 0 or not with_fv),
+                      witness=[(0.01, 10.0, 1000.0, 50.0, 5.0), (0.0, 10.0, 1000.0, 500.0, 1.0), (0.1, 5.0, 100.0, -50.0, 1.0)], timeout=120, cost=5, family='c20.plumbing', ctx=npf_stub,
+                      stubs=['P4 numpy_financial.pmt / pv recording stub'],
+                      bounds='rate in (-0.9, 10] incl. 0, nper 1..600, pv, fv reals: PMT hands (rate, nper, pv, fv or 0, payments at period end) to the annuity routine and returns its result'
+                             + ('; fv != 0' if with_fv else ''),
+                      show=lambda *a, with_fv=with_fv: f'PMT{a[:4] if with_fv else a[:3]!r}'))
 
     def h_pv(rate: float, nper: float, pmt: float, fv: float, typ: bool, u: float) -> bool:
         RES[0] = u
         del CALLS[:]
         r = FIN.PV(rate, nper, pmt, fv, 1 if typ else 0)
         if not STUB[0]:
-            return nval(r) is not None
+            return close(nval(r), float(real_npf.pv(rate, nper, pmt, fv, 1 if typ else 0)))
         return len(CALLS) == 1 and CALLS[0] == ('pv', rate, nper, pmt, fv, 1 if typ else 0) and nval(r) == u
-    obs.append(Ob('c20.PV[plumbing]', h_pv, pre=lambda rate, nper, pmt, fv, typ, u: 0.001 <= rate <= 10 and 1 <= nper <= 600 and -1e6 <= pmt <= 1e6 and -1e6 <= fv <= 1e6 and -1e6 <= u <= 1e6,
+    obs.append(Ob('c20.PV[plumbing]', h_pv, pre=lambda rate, nper, pmt, fv, typ, u: -0.9 < rate <= 10 and 1 <= nper <= 600 and -1e6 <= pmt <= 1e6 and -1e6 <= fv <= 1e6 and -1e6 <= u <= 1e6,
                   witness=[(0.01, 10.0, -100.0, 0.0, False, 5.0), (0.1, 5.0, -100.0, 50.0, True, 1.0)], timeout=120, cost=5, family='c20.plumbing', ctx=npf_stub, stubs=['P4'],
                   bounds='PV(rate, nper, pmt, fv, type) hands (rate, nper, pmt, fv, when = type) to the annuity routine (either timing) and returns its result',
                   show=lambda *a: f'PV{a[:5]!r}'))
